@@ -5,7 +5,7 @@
    stack of their own`).  Schedules, worker counts and arrival orders are universally quantified. *)
 From P2 Require Import Base.Prelude Conc.ParMap Conc.SharedStack Conc.Pipeline Conc.ConcProofs.
 From P2 Require Import Conc.MapAutoProofs Conc.PipelineProofs Conc.MergeChan Conc.MergeChanProofs Conc.CopyProd Conc.CopyProdProofs.
-From P2 Require Import Conc.EarlyStopProofs Conc.CopyProdStop Conc.CopyProdStopProofs Conc.MergeLift.
+From P2 Require Import Conc.EarlyStopProofs Conc.CopyProdStop Conc.CopyProdStopProofs Conc.MergeLift Conc.LazyPipe Conc.LazyPipeProofs.
 From Coq Require Import Permutation.
 
 (* the collector goroutine: results that are all values, arriving in ANY order (each index once), are handed to
@@ -254,6 +254,83 @@ Theorem pipeline_par_eq_seq : forall (asg : assignment) (tsched : sp -> list Z -
   pipe_par_with asg tsched n stages t tp = pipe_seq n stages t tp.
 Proof. exact pipeline_par_eq_seq_lem. Qed.
 
+(* EARLY STOPPING COMPOSED THROUGH A WHOLE PIPELINE (Conc/LazyPipe.v, the lazy / demand-driven embedding).
+   A pipeline of map / accept stages (MapAuto / FilterAuto protocol) and closure stages on the calling goroutine
+   (LScan: ANY stateful stage that passes error elements on - number, iir, fsm, combine ... - given by its step function;
+   number_step is list.go's Number), nested in any order and number, in front of a short-circuit consumer `cons` (first, top(n), present,
+   indexWhere, single, ~ : a function from the delivered prefix to continue | stop result; an error element makes the
+   evaluation fail).  The source may already contain errors.
+
+   (1) pipeline_par_early_stop_eq_seq: for every assignment of schedule inputs to every stage and traversal (k, the timing
+   decision, the worker count >= 1, the schedule of feeder / workers / collector, completed canonically), the stop
+   moments being those of the library (a stage answers false to its upstream when its `done` channel is closed or its
+   consumer has stopped): the consumer's verdict is the sequential verdict - the same result, the same failure, or
+   "end of stream" with EXACTLY the sequential elements delivered - except that it may be "fails" where the sequential
+   verdict is a result, and then only if the sequential element sequence contains an error (an error raised by a
+   read-ahead element behind the decisive one: the collector of initParallel attaches the first error that ARRIVES to
+   the next element it emits).  Failure clause: if sequential evaluation of the demanded prefix fails, evaluation fails.
+   (2) pipeline_par_early_stop_prefix: the safety half at EVERY moment of every schedule (complete or not) and for
+   ARBITRARY stop moments of every stage.
+   (3) pipeline_par_early_stop_naive_refuted: the naive statement (verdict = sequential verdict) fails - the property
+   text excludes this case from its quantifier ("whether an error behind an early-stopping consumer's read-ahead window
+   surfaces is not claimed"). *)
+Theorem pipeline_par_early_stop_eq_seq : forall (R : Type) (cons : list Z -> option R) (stages : list lstage)
+  (pps : passignment) (items : list (res Z)), passignment_ok pps ->
+  let L := lazy_run pps (cons_stop cons) stages items in
+  let S := lazy_seq stages items in
+  (scan cons L = scan cons S \/ (scan cons L = VFail /\ noerr S = false))
+  /\ (scan cons S = VFail -> scan cons L = VFail)
+  /\ (scan cons L = VMore -> L = S).
+Proof. exact pipeline_par_early_stop_complete_lem. Qed.
+
+Theorem pipeline_par_early_stop_prefix : forall (R : Type) (cons : list Z -> option R) (stages : list lstage)
+  (asg : lassignment) (items : list (res Z)),
+  let L := lazy_par asg stages items in
+  let S := lazy_seq stages items in
+  (forall r, scan cons L = VResult r -> scan cons S = VResult r)
+  /\ (scan cons L = VFail -> noerr S = false)
+  /\ (scan cons S = VFail -> forall r, scan cons L <> VResult r)
+  /\ (noerr S = true -> is_prefix L S).
+Proof. exact pipeline_par_early_stop_lem. Qed.
+
+(* numbers(5).map(x -> fails on 3).top(2): item 0 on the caller, three workers take items 1, 2, 3; the error of item 3
+   reaches the collector before the value of item 1, which is then handed to top(2) together with that error *)
+Theorem pipeline_par_early_stop_naive_refuted :
+  exists (stages : list lstage) (asg : lassignment) (items : list (res Z)),
+    scan (c_top 2) (lazy_seq stages items) = VResult [0; 1]%Z
+    /\ scan (c_top 2) (lazy_par asg stages items) = VFail.
+Proof. exact pipeline_par_early_stop_naive_refuted_lem. Qed.
+
+(* non-vacuity, nested: numbers(40).map(f1).number(g).map(f2) in front of top(15) (f2 fails on element 30 - behind the
+   decisive one and, under these schedules, not read ahead), both maps switched after 12 items, 3 workers, seeded
+   schedules; and the same with f1 failing on element 9 (inside the demanded prefix): evaluation fails in both semantics *)
+Example lazy_pipeline_nonvacuous :
+  let mk := fun a b fl => (mkSP a b 0 0 1 fl true 0 0 false 0 0)%Z in
+  let pps := fun (pos : nat) (l : list (res Z)) => mkPP 12 true 3 (gen_sched (3 * length l) 3 (7 + N.of_nat pos)) [] in
+  let src := map (@ROk Z) (numbers 40%Z) in
+  let st1 := [LMap (mk 3 1 (-1))%Z; LScan [0%Z] (number_step (mk 2 5 (-1))%Z); LMap (mk 1 7 (lin1 1 7 (lin2 2 5 30 (lin1 3 1 30))))%Z] in
+  let st2 := [LMap (mk 3 1 (lin1 3 1 9))%Z; LScan [0%Z] (number_step (mk 2 5 (-1))%Z); LMap (mk 1 7 (-1))%Z] in
+  passignment_ok pps
+  /\ scan (c_top 15) (lazy_run pps (cons_stop (c_top 15)) st1 src) = scan (c_top 15) (lazy_seq st1 src)
+  /\ (exists r, scan (c_top 15) (lazy_seq st1 src) = VResult r /\ length r = 15%nat)
+  /\ noerr (lazy_seq st1 src) = false
+  /\ Nat.ltb (length (lazy_run pps (cons_stop (c_top 15)) st1 src)) 40 = true
+  /\ scan (c_top 15) (lazy_seq st2 src) = VFail
+  /\ scan (c_top 15) (lazy_run pps (cons_stop (c_top 15)) st2 src) = VFail.
+Proof.
+  cbv zeta. split; [intros pos l; cbn; auto|]. vm_compute.
+  split; [reflexivity|]. split; [eexists; split; reflexivity|]. repeat split.
+Qed.
+
+(* the read-ahead of a parallel stage is bounded by the reorder buffer only, not by the worker count: worker 0 holds
+   element 1 (= nextOut), worker 1 runs through the whole source; the consumer has been given nothing new, 7 results wait *)
+Example read_ahead_exceeds_worker_count :
+  let f := fun (_ : nat) (x : nat) => ROk x : res nat in
+  let s := ParMap.run f log_yield (par_init 1 2 [ROk 1; ROk 2; ROk 3; ROk 4; ROk 5; ROk 6; ROk 7; ROk 8] [ROk 0])
+             [Feed 0; Feed 1; Deliver 1; Feed 1; Deliver 1; Feed 1; Deliver 1; Feed 1; Deliver 1; Feed 1; Deliver 1; Feed 1; Deliver 1; Feed 1; Deliver 1] in
+  cst (col s) = [ROk 0] /\ nextOut (col s) = 1 /\ nexti s = 9 /\ src s = [] /\ length (buffer (col s)) = 7.
+Proof. vm_compute. repeat split. Qed.
+
 (* non-vacuity: 3 workers, 5 items from index 12, item 14 fails; results arrive as 13,12,14,16,15; complete *)
 Example par_map_nonvacuous :
   let f := fun (_ : nat) (x : nat) => if Nat.eqb x 7 then RErr else ROk (x * 2) in
@@ -355,6 +432,9 @@ Print Assumptions merge_no_deadlock.
 Print Assumptions multi_use_each_sees_source.
 Print Assumptions multi_use_no_deadlock.
 Print Assumptions pipeline_par_eq_seq.
+Print Assumptions pipeline_par_early_stop_eq_seq.
+Print Assumptions pipeline_par_early_stop_prefix.
+Print Assumptions pipeline_par_early_stop_naive_refuted.
 Print Assumptions map_auto_early_stop_prefix.
 Print Assumptions filter_auto_early_stop_prefix.
 Print Assumptions merge_seq_stop_prefix.
